@@ -5,7 +5,8 @@ import ast
 
 from sa.core import Ob
 from sa.pm import AnalysisError, norm, body_nodes
-from sa import gi, df, ru, ct
+from sa import gi, df, ru, ct, sym
+from sa.pm import Undecided
 from sa.gi import IntSet, iv, GuardWalker, SymbolicAtomizer
 from sa.ex import EX
 from rules import netbind
@@ -38,104 +39,104 @@ def c17_1(ctx):
                   what="escape:%s:%s" % (e.exc, e.func), sample={"exception": e.exc, "raised_in": e.func, "construct": e.what[:80], "disposition": why})
     ctx.ok("verify_message analysed", sample={"raw_escapes": len(escs)})
     # what verify_message itself converts
-    hs = [h for n in body_nodes(f.node) if isinstance(n, ast.Try) for h in n.handlers]
-    names = {(df.dotted(x) or "").split(".")[-1] for h in hs for x in ((h.type.elts if isinstance(h.type, ast.Tuple) else [h.type]) if h.type is not None else [])}
-    ctx.check("EncodingError" in names or "ValueError" in names or "Exception" in names, "decode-errors-to-false", ctx.where(f), "verify_message does not convert decoding errors to False")
-    ret_false = any(isinstance(s, ast.Return) and isinstance(s.value, ast.Constant) and s.value.value is False for h in hs for s in h.body)
-    ctx.check(ret_false, "handler-returns-false", ctx.where(f), "the decoding-error handler does not return False")
-    d = ctx.func(MSG, "MessageSigner._decode_signature")
-    tries = [n for n in body_nodes(d.node) if isinstance(n, ast.Try) and any("a2b_base64(signature)" in norm(s) for s in n.body)]
-    ok = len(tries) == 1 and any(any(isinstance(s, ast.Raise) and "EncodingError" in norm(s) for s in h.body) for h in tries[0].handlers)
-    ctx.check(ok, "base64-errors", ctx.where(d), "_decode_signature does not turn base64 errors into EncodingError")
+    w = sym.walk(ctx, f)
+    dec = sym.calls_matching(w, ".pair_for_message_hash")
+    if not dec:
+        raise Undecided("verify_message does not call pair_for_message_hash")
+    for e in dec:
+        names = set()
+        tries = sym.enclosing_tries(f.node, e.node)
+        for t in tries:
+            names |= sym.handler_names(t)
+        ctx.check(bool(names & {"EncodingError", "ValueError", "Exception", "BaseException"}), "decode-errors-to-false", ctx.where(f, e.node), "verify_message does not convert decoding errors to False")
+        hb = [x for t in tries for h in t.handlers for x in h.body]
+        ret_false = any(isinstance(x, ast.Return) and isinstance(x.value, ast.Constant) and x.value.value is False for x in hb)
+        ctx.check(ret_false, "handler-returns-false", ctx.where(f), "the decoding-error handler does not return False")
     # empty message is a message: the digest is chosen by `message is not None`
-    tests = [n.test for n in ast.walk(f.node) if isinstance(n, ast.IfExp) and "hash_for_signing" in norm(n.body)] + [n.test for n in body_nodes(f.node) if isinstance(n, ast.If) and any("hash_for_signing" in norm(s) for s in n.body)]
-    ok = len(tests) == 1 and isinstance(tests[0], ast.Compare) and isinstance(tests[0].ops[0], ast.IsNot) and norm(tests[0].left) == f.params()[3] and isinstance(tests[0].comparators[0], ast.Constant) and tests[0].comparators[0].value is None
-    ctx.check(ok, "message-presence-test", ctx.where(f), "verify_message chooses the digest by `%s`; an empty message is still a message: the test must be `message is not None`" % [norm(t) for t in tests], sample={"test": [norm(t) for t in tests]})
+    msgp = f.params()[3]
+    hs = sym.calls_matching(w, ".hash_for_signing")
+    if not hs:
+        raise Undecided("verify_message does not call hash_for_signing")
+    r = gi.f_or(*[e.reach for e in hs])
+    atom = ("op", "%s is None" % msgp)
+    ops = gi.f_opaques(r) if r not in (True, False) else []
+    ctx.check(sym._equiv(r, gi.f_not(atom)), "message-presence-test", ctx.where(f), "verify_message hashes the message under `%s`; an empty message is still a message: the digest must be chosen by `message is not None` alone" % ops, sample={"guards": ops})
+    _refcheck(ctx, "MessageSigner.verify_message", "ms_verify_message", "verify-pipeline")
+
+
+_REF = None
+
+
+def _ref():
+    global _REF
+    if _REF is None:
+        import os
+        _REF = ast.parse(open(os.path.join(os.path.dirname(os.path.dirname(os.path.abspath(__file__))), "spec", "ref_msg.py")).read())
+    return _REF
+
+
+INTS = lambda t: t in ("first", "recid", "r", "s", "x", "order", "y_parity", "flags", "header", "msg_hash") or t.startswith(("len(", "self._generator.sign_with_recid(", "self._generator.order()", "self._generator.p()", "from_bytes_32(", "sig[0]", "a2b_base64(signature)[0]")) or t.startswith("self._decode_signature(signature)[") and not t.endswith("[0]")
+
+
+def _refcheck(ctx, dotted, refname, key, rel=MSG, ints=None):
+    return sym.against_reference(ctx, ctx.func(rel, dotted), _ref(), refname, key, ints or INTS)
 
 
 # ------------------------------------------------------------------ C17.2
 def c17_2(ctx):
     d = ctx.func(MSG, "MessageSigner._decode_signature")
-    w = GuardWalker(SymbolicAtomizer(ru.subject({"first"}), df.const_int))
-    ex = w.run(d.node.body)
-    s, n = ru.guard_reject_set(d.node, w, ex, ru.is_raise, U, E)
-    ctx.check(s == iv(27, 34).complement(), "header-range", ctx.where(d), "_decode_signature rejects header bytes %s, must be exactly outside 27..34" % s.fmt(), sample={"subject": "first", "rejected": s.fmt()})
-    s2, n2 = ru.guard_reject_set(d.node, GuardWalker(SymbolicAtomizer(ru.subject({"len(sig)"}), df.const_int)), GuardWalker(SymbolicAtomizer(ru.subject({"len(sig)"}), df.const_int)).run(d.node.body), ru.is_raise, U, E)
+    sigp = d.params()[1]
+    SIG = "a2b_base64(%s)" % sigp
+    w = sym.int_walk(ctx, d, {"%s[0]" % SIG})
+    s, n = sym.decisive_set(sym.exits_formula(w, ru.is_raise), U, E)
+    ctx.check(s == iv(27, 34).complement(), "header-range", ctx.where(d), "_decode_signature rejects header bytes %s, must be exactly outside 27..34" % s.fmt(), sample={"subject": "first byte", "rejected": s.fmt()})
+    w2 = sym.int_walk(ctx, d, {"len(%s)" % SIG})
+    s2, n2 = sym.decisive_set(sym.exits_formula(w2, ru.is_raise), U, E)
     ctx.check(s2 == iv(65, 65).complement(), "signature-length", ctx.where(d), "_decode_signature rejects lengths %s, must be exactly != 65" % s2.fmt())
-    top = d.node.body
-    sub = [i for i, st in enumerate(top) if isinstance(st, ast.AugAssign) and norm(st.target) == "first" and isinstance(st.op, ast.Sub) and df.const_int(st.value) == 27]
-    rng = [i for i, st in enumerate(top) if isinstance(st, ast.If) and "first" in norm(st.test) and any(isinstance(x, ast.Raise) for x in st.body)]
-    rets = df.returns_of(d.node)
-    ok = len(sub) == 1 and len(rng) == 1 and rng[0] < sub[0] and len(rets) == 1 and isinstance(rets[0].value, ast.Tuple) and len(rets[0].value.elts) == 4
-    defs = df.single_defs(d.node)
-    if ok:
-        bdefs = {k: v for k, v in defs.items() if k in ("is_compressed", "recid", "r", "s")}
-        elts = [norm(df.expand(e, bdefs)) for e in rets[0].value.elts]
-        ok = elts[0] in ("bool(first & 4)", "first & 4 != 0") and elts[1] in ("first & 3",) and elts[2] == "from_bytes_32(sig[1:33])" and elts[3] in ("from_bytes_32(sig[33:33 + 32])", "from_bytes_32(sig[33:65])", "from_bytes_32(sig[33:])")
-    ctx.check(ok, "header-fields", ctx.where(d),
-              "_decode_signature does not return (compressed = bit 2 of first-27, recid = low TWO bits of first-27, r = bytes 1..32, s = bytes 33..64): %s" % ([norm(df.expand(e, {k: v for k, v in defs.items() if k in ("is_compressed", "recid", "r", "s")})) for e in rets[0].value.elts] if rets and isinstance(rets[0].value, ast.Tuple) else None),
-              sample={"returned": [norm(e) for e in rets[0].value.elts] if rets and isinstance(rets[0].value, ast.Tuple) else None})
-    sg = ctx.func(MSG, "MessageSigner.signature_for_message_hash")
-    t = norm(sg.node)
-    ctx.check("first = 27 + recid + (4 if is_compressed else 0)" in t and "bytes([first]) + to_bytes_32(r) + to_bytes_32(s)" in t and "self._generator.sign_with_recid(secret_exponent, msg_hash)" in t, "header-writer", ctx.where(sg),
-              "signature_for_message_hash does not write 27 + recid + 4*compressed, r, s")
+    _refcheck(ctx, "MessageSigner._decode_signature", "ms_decode_signature", "header-fields")
+    _refcheck(ctx, "MessageSigner.signature_for_message_hash", "ms_signature_for_message_hash", "header-writer")
+    # base64 errors become EncodingError
+    w3 = sym.walk(ctx, d)
+    b64 = sym.calls_matching(w3, lambda t: t == "a2b_base64")
+    if not b64:
+        raise Undecided("_decode_signature does not call a2b_base64")
+    names = set()
+    for t in sym.enclosing_tries(d.node, b64[0].node):
+        names |= sym.handler_names(t)
+    ctx.check(bool(names & {"ValueError", "Error", "Exception", "BaseException"}), "base64-errors", ctx.where(d), "_decode_signature does not turn base64 errors into EncodingError")
 
 
 # ------------------------------------------------------------------ C17.3
 def c17_3(ctx):
     f = ctx.func(MSG, "MessageSigner.pair_for_message_hash")
-    defs = df.single_defs(f.node)
-    const = ru.const_resolver(ctx, f, {"self._generator.order()"})
-    for subj in ("r", "s"):
-        w = GuardWalker(SymbolicAtomizer(ru.subject({subj}), const))
-        ex = w.run(f.node.body)
-        s, n = ru.guard_reject_set(f.node, w, ex, ru.is_raise, U, E)
+    sigp = f.params()[1]
+    DEC = "self._decode_signature(%s)" % sigp
+    for subj, idx in (("r", 2), ("s", 3)):
+        w = sym.int_walk(ctx, f, {"%s[%d]" % (DEC, idx)}, {"self._generator.order()"})
+        s, n = sym.decisive_set(sym.exits_formula(w, ru.is_raise), U, E)
         ctx.check(s == iv(1, ("s", -1)).complement(), "recovery-range:%s" % subj, ctx.where(f), "pair_for_message_hash rejects %s in %s, must be exactly outside [1, n-1]" % (subj, s.fmt("n")), sample={"subject": subj, "rejected": s.fmt("n")})
-    x = defs.get("x")
-    ok = isinstance(x, ast.IfExp) and norm(df.expand(x.body, {k: v for k, v in defs.items() if k == "order"})) == "r + self._generator.order()" and norm(x.orelse) == "r" and norm(x.test) == "recid > 1"
-    ctx.check(ok, "nonce-x-coordinate", ctx.where(f), "the nonce point's x coordinate is `%s`; it is r + order exactly for recovery ids 2 and 3" % (norm(x) if x is not None else None), sample={"x": norm(x) if x is not None else None})
-    calls = [c for c in df.calls_in(f.node) if df.last_attr(c) == "possible_public_pairs_for_signature"]
-    ok = len(calls) == 1 and norm(calls[0].args[0]) == f.params()[2] and norm(calls[0].args[1]) == "(x, s)" and any(k.arg == "y_parity" and norm(df.expand(k.value, defs)) == "recid & 1" for k in calls[0].keywords)
-    ctx.check(ok, "recovery-call", ctx.where(f), "recovery is not possible_public_pairs_for_signature(hash, (x, s), y_parity=recid & 1)")
-    # the order is never added to a coordinate of the recovered key
-    bad = [n for n in body_nodes(f.node) if isinstance(n, ast.BinOp) and isinstance(n.op, ast.Add) and any(isinstance(o, ast.Subscript) for o in (n.left, n.right)) and "order" in norm(n)]
-    ctx.check(not bad, "no-order-on-key-coordinate", ctx.where(f), "pair_for_message_hash adds the order to a coordinate of the recovered key (`%s`): the order belongs to the nonce point's x" % [norm(b) for b in bad])
-    w = GuardWalker(ru.opaque)
-    ex = w.run(f.node.body)
-    rs = [gi.f_opaques(e.cond) for e in ex if e.kind == "raise"]
-    flat = [o for c in rs for o in c]
-    ctx.check(any("len(pairs) == 0" in o for o in flat) and any("infinity" in o for o in flat), "unrecoverable-cases", ctx.where(f), "pair_for_message_hash does not refuse `no curve point` and `recovered key is infinity`")
-    ctx.check(any(o.startswith("x >= self._generator.p()") or o == "x >= self._generator.p()" for o in flat), "x-below-p", ctx.where(f), "pair_for_message_hash does not refuse x >= p")
-    m = ctx.func(MSG, "MessageSigner.pair_matches_key")
-    t = norm(m.node)
-    ctx.check("return bool(key.public_pair() == pair)" in t and "pair_hash160 = public_pair_to_hash160_sec(pair, compressed=is_compressed)" in t and "return bool(key_hash160 == pair_hash160)" in t, "key-comparison", ctx.where(m),
-              "pair_matches_key does not compare the recovered pair with the key's pair, or its hash160 (with the signature's compression flag) with the address")
+    _refcheck(ctx, "MessageSigner.pair_for_message_hash", "ms_pair_for_message_hash", "recovery-arithmetic")
+    _refcheck(ctx, "MessageSigner.pair_matches_key", "ms_pair_matches_key", "key-comparison")
+    _refcheck(ctx, "Generator.possible_public_pairs_for_signature", "gen_possible_public_pairs", "recovery", rel="pycoin/ecdsa/Generator.py", ints=lambda t: t in ("r", "s", "value", "y_parity", "inv_r", "s_over_r") or t.startswith(("signature[", "self.inverse(")))
 
 
 # ------------------------------------------------------------------ C17.4
 def c17_4(ctx):
     f = ctx.func(MSG, "MessageSigner.hash_for_signing")
     msg = f.params()[1]
-    tr = ct.write_trace(f.node, "fd")
-    got = [(i.fmt, i.value) for i in tr]
-    ctx.check(got == [("S", "self.msg_magic_for_netcode().encode('utf8')"), ("S", "%s.encode('utf8')" % msg)], "digest-trace", ctx.where(f), "hash_for_signing streams %s; the digest covers varstr(magic) || varstr(message) with the message text unchanged" % got,
-              sample={"trace": [repr(i) for i in tr]})
     asg = df.assignments(f.node)
     ctx.check(msg not in asg, "message-unmodified", ctx.where(f), "hash_for_signing rewrites the message before hashing it (`%s`): two different texts share one digest" % [norm(st) for v, st in asg.get(msg, [])],
               sample={"reassignments": [norm(st) for v, st in asg.get(msg, [])]})
-    rets = df.returns_of(f.node)
-    ctx.check(len(rets) == 1 and norm(rets[0].value) == "from_bytes_32(double_sha256(fd.getvalue()))", "digest", ctx.where(f), "hash_for_signing is not double_sha256 of the stream")
-    m = ctx.func(MSG, "MessageSigner.msg_magic_for_netcode")
-    ctx.check("return '%s Signed Message:\\n' % self._network_name" in norm(m.node), "magic", ctx.where(m), "the magic prefix is not `<network name> Signed Message:\\n`")
-    s = ctx.func(MSG, "MessageSigner.sign_message")
-    t = norm(s.node)
-    ctx.check("msg_hash = self.hash_for_signing(message)" in t and "is_compressed = key.is_compressed()" in t and "addr = key.address()" in t and "self.signature_for_message_hash(secret_exponent, msg_hash, is_compressed)" in t, "sign-pipeline", ctx.where(s),
-              "sign_message does not hash the message, take the key's compression flag and sign")
+    _refcheck(ctx, "MessageSigner.hash_for_signing", "ms_hash_for_signing", "digest")
+    _refcheck(ctx, "MessageSigner.msg_magic_for_netcode", "ms_magic", "magic")
+    _refcheck(ctx, "MessageSigner.sign_message", "ms_sign_message", "sign-pipeline")
+    _refcheck(ctx, "MessageSigner.parse_sections", "ms_parse_sections", "armour-sections")
+    _refcheck(ctx, "MessageSigner.parse_signed_message", "ms_parse_signed_message", "armour-header")
 
 
 OBLIGATIONS = [
-    Ob("C17.1", "exception escape of verify_message is empty modulo tabulated infeasible pairs; message presence test", c17_1, floor=6, engines="EX,DF", breaks_if="non-base64 text, r without curve point, recovery ids 2/3, empty message"),
-    Ob("C17.2", "compact signature header: accepted 27..34, compressed = bit 2, recid = low two bits, length 65", c17_2, floor=4, engines="GI,DF", breaks_if="header byte bumped by 2"),
-    Ob("C17.3", "recovery arithmetic: r,s in [1,n-1]; x = r + order exactly for recid > 1; no order on key coordinates", c17_3, floor=8, engines="GI,MK"),
-    Ob("C17.4", "digest = dsha256(varstr(magic) || varstr(message)), message unmodified", c17_4, floor=5, engines="CT,DF", breaks_if="messages differing only in CRLF vs LF"),
+    Ob("C17.1", "exception escape of verify_message is empty modulo tabulated infeasible pairs; message presence test", c17_1, floor=5, engines="EX,SYM", breaks_if="non-base64 text, r without curve point, recovery ids 2/3, empty message"),
+    Ob("C17.2", "compact signature header: accepted 27..34, compressed = bit 2, recid = low two bits, length 65", c17_2, floor=5, engines="SYM,GI", breaks_if="header byte bumped by 2"),
+    Ob("C17.3", "recovery arithmetic: r,s in [1,n-1]; x = r + order exactly for recid > 1; no order on key coordinates", c17_3, floor=5, engines="SYM,GI"),
+    Ob("C17.4", "digest = dsha256(varstr(magic) || varstr(message)), message unmodified", c17_4, floor=6, engines="SYM", breaks_if="messages differing only in CRLF vs LF"),
 ]
